@@ -4,16 +4,19 @@
 // harness down. Every call is wrapped in `catch`; what is recorded per call is: returned / panicked with class
 // (class 9 = the `VERIF-OOB` bounds hook inside an unchecked accessor). For the plain bitvector, RawVector,
 // IntVector and the mask functions the call and its result are emitted as Coq terms and replayed on the model.
+// Memory-mapped views: real files made of library-serialized values are mapped and every view type is requested at
+// every offset (one forked child per file); a view that `new` returned is asked for its extent and touched at its
+// first and last element, so that a view beyond the mapping shows up in the range test or kills the child.
 use crate::bvgen::*;
 use crate::common::*;
 use simple_sds::bit_vector::BitVector;
 use simple_sds::bits;
-use simple_sds::int_vector::IntVector;
+use simple_sds::int_vector::{IntVector, IntVectorMapper};
 use simple_sds::ops::*;
-use simple_sds::raw_vector::{AccessRaw, PopRaw, PushRaw, RawVector};
+use simple_sds::raw_vector::{AccessRaw, PopRaw, PushRaw, RawVector, RawVectorMapper};
 use simple_sds::rl_vector::index::SampleIndex;
 use simple_sds::rl_vector::{RLBuilder, RLVector};
-use simple_sds::serialize::Serialize;
+use simple_sds::serialize::{MappedBytes, MappedOption, MappedSlice, MappedStr, MappingMode, MemoryMap, MemoryMapped, Serialize};
 use simple_sds::sparse_vector::{SparseBuilder, SparseVector};
 use simple_sds::wavelet_matrix::wm_core::WMCore;
 use simple_sds::wavelet_matrix::WaveletMatrix;
@@ -50,6 +53,7 @@ const K_IV: u64 = 5;
 const K_RAW: u64 = 6;
 const K_BUILDERS: u64 = 7;
 const K_MASKS: u64 = 8;
+const K_MAPPED: u64 = 9;
 
 // ---------------------------------------------------------------- child processes
 
@@ -531,6 +535,70 @@ fn bv_batch(out: &mut Out, rng: &mut Rng, bits: &[bool], sup: u64, pairs: bool, 
     emit_bv(out, bits, sup, true, c2);
 }
 
+// `assert!(bit_offset < self.len(), "RawVector::set_bit(): Bit offset is out of bounds")` is an assertion, whatever
+// its message says
+fn fix_set_bit<T>(r: Res<T>) -> Res<T> {
+    match r {
+        Res::Panic(_, msg) if msg.starts_with("RawVector::set_bit()") => Res::Panic(P_ASSERT, msg),
+        other => other,
+    }
+}
+
+// one_iter / zero_iter of a bitvector without supports, driven by random call sequences
+fn bv_iter_only(rng: &mut Rng, bv: &BitVector, nrandom: usize) -> BvCalls {
+    let mut c = BvCalls { terms: Vec::new(), descs: Vec::new(), is9: Vec::new(), oob: false };
+    let len = bv.len();
+    let ones = bv.count_ones();
+    let zeros = len.wrapping_sub(ones);
+    for z in [false, true] {
+        let cnt = if z { zeros } else { ones };
+        let mut seqs = vec![vec![(0u8, 0usize)], vec![(1u8, 0usize)]];
+        seqs.extend(sequences_r(rng, cnt, true, nrandom));
+        for ops in seqs.iter() {
+            let name = if z { "zero_iter()" } else { "one_iter()" };
+            mark(&format!("BitVector::from(raw vector of {} bits).{}:{}", len, name, seq_desc(ops)));
+            let (opened, steps) = if z { drive(|| bv.zero_iter(), ops, step_de, onn) } else { drive(|| bv.one_iter(), ops, step_de, onn) };
+            let mut classes: Vec<u64> = vec![class_of(&opened)];
+            classes.extend(steps.iter().map(|s| class_of(&s.2)));
+            c.push(format!("BIter 0 {} 0 {} {}", b(z), ires(&opened, |_| "tt".to_string()), istep_terms(&steps)),
+                format!("{}:{}", name, seq_desc(ops)), &classes);
+        }
+    }
+    c
+}
+
+// set_bit(i, v) on a copy with any offset - inside the vector, in the unused part of the last word, beyond the
+// words - then BitVector::from of that same copy (unchanged if the call panicked) and its iterators
+fn set_bit_then_iterate(out: &mut Out, rng: &mut Rng, rv: &RawVector, loaded: bool) {
+    let len = rv.len();
+    let words: Vec<u64> = { let w: &[u64] = rv.as_ref(); w.to_vec() };
+    let cap = 64 * words.len();
+    let mut offs: Vec<usize> = vec![0, len.saturating_sub(1), len, len + 1, (len + cap) / 2, cap.saturating_sub(1), cap, cap + 1, cap + 64, 1usize << 63, MAX - 1, MAX];
+    offs.sort();
+    offs.dedup();
+    for i in offs.iter() {
+        for v in [true, false] {
+            if !v && *i != len && *i + 1 != cap {
+                continue;
+            }
+            let mut c = rv.clone();
+            mark(&format!("RawVector(len={}).set_bit({},{})", len, i, v));
+            let r = fix_set_bit(catch(|| { c.set_bit(*i, v); }));
+            out.stat(if *i < len { "set_bit.inside" } else if *i < cap { "set_bit.unused_bits_of_last_word" } else { "set_bit.beyond_the_words" });
+            out.stat(if matches!(r, Res::Ok(_)) { "set_bit.returned" } else { "set_bit.panicked" });
+            let bv = BitVector::from(c);
+            let calls = bv_iter_only(rng, &bv, 6);
+            out.stat_n("calls.bitvector_after_set_bit", calls.terms.len() as u64);
+            let hits: Vec<String> = calls.descs.iter().zip(calls.is9.iter()).filter(|(_, h)| **h).map(|(d, _)| format!("{:?}", d)).collect();
+            let js: Vec<String> = calls.descs.iter().map(|d| format!("{:?}", d)).collect();
+            out.case(if loaded { "raw_set_loaded" } else { "raw_set" },
+                format!("CRawSet {} {} {} {} {} {} {} [{}]", PATH, b(DBG), len, nlist(&words), nz(*i), b(v), ires(&r, |_| "tt".to_string()), calls.terms.join("; ")),
+                format!("{{\"struct\":\"RawVector -> BitVector\",\"len\":{},\"words\":{:?},\"loaded\":{},\"set_bit\":[{},{}],\"set_bit_class\":{},\"beyond_len\":{},\"oob_calls\":[{}],\"calls\":[{}]}}",
+                    len, words, loaded, i, v, class_of(&r), *i >= len, hits.join(","), js.join(",")), true);
+        }
+    }
+}
+
 // ---------------------------------------------------------------- RawVector / IntVector (modelled, every call on a clone)
 
 fn raw_batch(out: &mut Out, rng: &mut Rng, bits: &[bool]) {
@@ -555,7 +623,7 @@ fn raw_batch(out: &mut Out, rng: &mut Rng, bits: &[bool]) {
             let r = catch(|| rv.bit(i));
             add(format!("RBit {} {}", nz(i), ires(&r, |x| b(*x))), format!("bit({})", i), class_of(&r));
             for v in [false, true] {
-                let r = catch(|| { let mut c = rv.clone(); c.set_bit(i, v); });
+                let r = fix_set_bit(catch(|| { let mut c = rv.clone(); c.set_bit(i, v); }));
                 add(format!("RSetBit {} {} {}", nz(i), b(v), ires(&r, |_| "tt".to_string())), format!("set_bit({},{})", i, v), class_of(&r));
             }
             // the unsafe fns inside their documented precondition (width <= 64), at every offset
@@ -605,6 +673,7 @@ fn raw_batch(out: &mut Out, rng: &mut Rng, bits: &[bool]) {
         out.stat_n("calls.rawvector", t.len() as u64);
         out.case(if which { "raw_loaded" } else { "raw" }, format!("CRaw {} {} {} [{}]", b(DBG), len, nlist(&words), t.join("; ")),
             format!("{{\"struct\":\"RawVector\",\"len\":{},\"loaded\":{},\"oob\":{},\"calls\":[{}]}}", len, which, oob, js), true);
+        set_bit_then_iterate(out, rng, &rv, which);
     }
 }
 
@@ -1018,6 +1087,444 @@ fn wm_batch(out: &mut Out, rng: &mut Rng, len: usize, sigma: u64, pairs: bool) {
     log.emit(out);
 }
 
+// ---------------------------------------------------------------- memory-mapped views
+
+type Touch = (u64, usize, Res<()>); // accessor (0 view[i], 1 word(i), 2 bit(i), 3 get(i)), index, outcome
+
+// probes of IntVectorMapper::get on a view whose width element is above 64: (len, width, [(index, outcome)])
+type Wide = (usize, usize, Vec<(usize, Res<()>)>);
+
+fn m_within(offset: usize, elems: Option<usize>, maplen: usize) -> bool {
+    match elems.and_then(|e| e.checked_add(offset)).and_then(|e| e.checked_add(1)) {
+        Some(end) => end <= maplen,
+        None => false,
+    }
+}
+
+fn ends(len: usize) -> Vec<usize> {
+    match len {
+        0 => Vec::new(),
+        1 => vec![0],
+        _ => vec![0, len - 1],
+    }
+}
+
+fn touch_at<F: Fn(usize)>(t: &mut Vec<Touch>, acc: u64, what: &str, idxs: &[usize], f: F) {
+    for i in idxs.iter() {
+        mark(&format!("{}({}) [touching a view that new() returned]", what, i));
+        let r = catch(|| f(*i));
+        t.push((acc, *i, r));
+    }
+}
+
+// a view type the harness knows how to measure and touch
+trait MView<'a>: MemoryMapped<'a> {
+    // the data length the view claims: items, bytes, or words of a mapper
+    fn claimed(&self) -> usize;
+    // the claimed range lies inside the mapping, computed from the view's own map_offset() and length
+    fn inside(&self, maplen: usize) -> bool;
+    fn touch(&self, t: &mut Vec<Touch>);
+    fn wide(&self) -> Option<Wide> {
+        None
+    }
+}
+
+impl<'a> MView<'a> for MappedSlice<'a, u64> {
+    fn claimed(&self) -> usize {
+        self.len()
+    }
+    fn inside(&self, maplen: usize) -> bool {
+        m_within(self.map_offset(), Some(self.len()), maplen)
+    }
+    fn touch(&self, t: &mut Vec<Touch>) {
+        touch_at(t, 0, "MappedSlice<u64>[]", &ends(self.len()), |i| { std::hint::black_box(self[i]); });
+    }
+}
+impl<'a> MView<'a> for MappedSlice<'a, usize> {
+    fn claimed(&self) -> usize {
+        self.len()
+    }
+    fn inside(&self, maplen: usize) -> bool {
+        m_within(self.map_offset(), Some(self.len()), maplen)
+    }
+    fn touch(&self, t: &mut Vec<Touch>) {
+        touch_at(t, 0, "MappedSlice<usize>[]", &ends(self.len()), |i| { std::hint::black_box(self[i]); });
+    }
+}
+impl<'a> MView<'a> for MappedSlice<'a, (u64, u64)> {
+    fn claimed(&self) -> usize {
+        self.len()
+    }
+    fn inside(&self, maplen: usize) -> bool {
+        m_within(self.map_offset(), self.len().checked_mul(2), maplen)
+    }
+    fn touch(&self, t: &mut Vec<Touch>) {
+        touch_at(t, 0, "MappedSlice<(u64,u64)>[]", &ends(self.len()), |i| { std::hint::black_box(self[i]); });
+    }
+}
+impl<'a> MView<'a> for MappedBytes<'a> {
+    fn claimed(&self) -> usize {
+        self.len()
+    }
+    fn inside(&self, maplen: usize) -> bool {
+        m_within(self.map_offset(), self.len().checked_add(7).map(|x| x / 8), maplen)
+    }
+    fn touch(&self, t: &mut Vec<Touch>) {
+        touch_at(t, 0, "MappedBytes[]", &ends(self.len()), |i| { std::hint::black_box(self[i]); });
+    }
+}
+impl<'a> MView<'a> for MappedStr<'a> {
+    fn claimed(&self) -> usize {
+        self.len()
+    }
+    fn inside(&self, maplen: usize) -> bool {
+        m_within(self.map_offset(), self.len().checked_add(7).map(|x| x / 8), maplen)
+    }
+    fn touch(&self, t: &mut Vec<Touch>) {
+        touch_at(t, 0, "MappedStr.as_bytes()[]", &ends(self.len()), |i| {
+            let s: &str = self.as_ref();
+            std::hint::black_box(s.as_bytes()[i]);
+        });
+    }
+}
+impl<'a> MView<'a> for RawVectorMapper<'a> {
+    fn claimed(&self) -> usize {
+        let data: &MappedSlice<'a, u64> = self.as_ref();
+        data.len()
+    }
+    fn inside(&self, maplen: usize) -> bool {
+        let data: &MappedSlice<'a, u64> = self.as_ref();
+        data.inside(maplen)
+    }
+    fn touch(&self, t: &mut Vec<Touch>) {
+        touch_at(t, 1, "RawVectorMapper.word", &ends(self.claimed()), |i| { std::hint::black_box(self.word(i)); });
+        touch_at(t, 2, "RawVectorMapper.bit", &ends(self.len()), |i| { std::hint::black_box(self.bit(i)); });
+    }
+}
+impl<'a> MView<'a> for IntVectorMapper<'a> {
+    fn claimed(&self) -> usize {
+        let raw: &RawVectorMapper<'a> = self.as_ref();
+        raw.claimed()
+    }
+    fn inside(&self, maplen: usize) -> bool {
+        let raw: &RawVectorMapper<'a> = self.as_ref();
+        raw.inside(maplen)
+    }
+    fn touch(&self, t: &mut Vec<Touch>) {
+        let raw: &RawVectorMapper<'a> = self.as_ref();
+        touch_at(t, 1, "IntVectorMapper.as_ref().word", &ends(raw.claimed()), |i| { std::hint::black_box(raw.word(i)); });
+        touch_at(t, 2, "IntVectorMapper.as_ref().bit", &ends(raw.len()), |i| { std::hint::black_box(raw.bit(i)); });
+        // widths the library writes; the others are probed separately (CMGet)
+        if self.width() <= 64 {
+            touch_at(t, 3, &format!("IntVectorMapper(len={},width={}).get", self.len(), self.width()), &ends(self.len()), |i| { std::hint::black_box(self.get(i)); });
+        }
+    }
+    fn wide(&self) -> Option<Wide> {
+        if self.width() <= 64 {
+            return None;
+        }
+        let len = self.len();
+        let mut idxs: Vec<usize> = vec![0, 1, 2, 63, 64, len / 2, 1usize << 63, len.wrapping_sub(65), len.wrapping_sub(2), len.wrapping_sub(1)];
+        idxs.retain(|i| *i < len);
+        idxs.sort();
+        idxs.dedup();
+        let mut gets = Vec::new();
+        for i in idxs.iter() {
+            mark(&format!("IntVectorMapper(len={},width={}).get({})", len, self.width(), i));
+            gets.push((*i, catch(|| { std::hint::black_box(self.get(*i)); })));
+        }
+        Some((len, self.width(), gets))
+    }
+}
+impl<'a, T: MView<'a>> MView<'a> for MappedOption<'a, T> {
+    fn claimed(&self) -> usize {
+        match self.as_ref() {
+            Some(v) => v.claimed(),
+            None => 0,
+        }
+    }
+    fn inside(&self, maplen: usize) -> bool {
+        match self.as_ref() {
+            Some(v) => v.inside(maplen),
+            None => self.map_offset() < maplen,
+        }
+    }
+    fn touch(&self, t: &mut Vec<Touch>) {
+        if let Some(v) = self.as_ref() {
+            v.touch(t);
+        }
+    }
+    fn wide(&self) -> Option<Wide> {
+        self.as_ref().and_then(|v| v.wide())
+    }
+}
+
+enum MObs {
+    Err(u64),
+    Panic(u64),
+    Ok { mo: Res<usize>, ml: Res<usize>, claimed: usize, inside: bool, touch: Vec<Touch> },
+}
+
+fn m_observe<'a, T: MView<'a>>(map: &'a MemoryMap, name: &str, offset: usize, wide: &mut Vec<(usize, Wide)>) -> MObs {
+    mark(&format!("{}::new(&map of {} elements, {})", name, map.len(), offset));
+    match catch(|| T::new(map, offset)) {
+        Res::Panic(k, _) => MObs::Panic(k),
+        Res::Ok(Err(e)) => MObs::Err(match e.kind() {
+            std::io::ErrorKind::UnexpectedEof => 1,
+            std::io::ErrorKind::InvalidData => 2,
+            _ => 0,
+        }),
+        Res::Ok(Ok(v)) => {
+            let mo = catch(|| v.map_offset());
+            let ml = catch(|| v.map_len());
+            let claimed = v.claimed();
+            let inside = v.inside(map.len());
+            let mut touch = Vec::new();
+            v.touch(&mut touch);
+            // without the bounds hooks the probe would really read outside the mask table (finding F14): the
+            // sanitizer run of the thorough tier leaves it out
+            if cfg!(feature = "hooks") {
+                if let Some(w) = v.wide() {
+                    wide.push((offset, w));
+                }
+            }
+            MObs::Ok { mo, ml, claimed, inside, touch }
+        }
+    }
+}
+
+// (Coq view type, Rust name); index 12 is the IntVectorMapper inside a MappedOption
+const MTYPES: [(&str, &str); 13] = [
+    ("TyVec", "MappedSlice<u64>"), ("TyVec", "MappedSlice<usize>"), ("TyPairs", "MappedSlice<(u64,u64)>"), ("TyBytes", "MappedBytes"),
+    ("TyStr", "MappedStr"), ("TyRaw", "RawVectorMapper"), ("TyInt", "IntVectorMapper"),
+    ("(TyOpt TyVec)", "MappedOption<MappedSlice<u64>>"), ("(TyOpt TyPairs)", "MappedOption<MappedSlice<(u64,u64)>>"),
+    ("(TyOpt TyBytes)", "MappedOption<MappedBytes>"), ("(TyOpt TyStr)", "MappedOption<MappedStr>"),
+    ("(TyOpt TyRaw)", "MappedOption<RawVectorMapper>"), ("(TyOpt TyInt)", "MappedOption<IntVectorMapper>"),
+];
+
+fn m_observe_ty(map: &MemoryMap, ty: usize, offset: usize, wide: &mut Vec<(usize, Wide)>) -> MObs {
+    let name = MTYPES[ty].1;
+    match ty {
+        0 => m_observe::<MappedSlice<u64>>(map, name, offset, wide),
+        1 => m_observe::<MappedSlice<usize>>(map, name, offset, wide),
+        2 => m_observe::<MappedSlice<(u64, u64)>>(map, name, offset, wide),
+        3 => m_observe::<MappedBytes>(map, name, offset, wide),
+        4 => m_observe::<MappedStr>(map, name, offset, wide),
+        5 => m_observe::<RawVectorMapper>(map, name, offset, wide),
+        6 => m_observe::<IntVectorMapper>(map, name, offset, wide),
+        7 => m_observe::<MappedOption<MappedSlice<u64>>>(map, name, offset, wide),
+        8 => m_observe::<MappedOption<MappedSlice<(u64, u64)>>>(map, name, offset, wide),
+        9 => m_observe::<MappedOption<MappedBytes>>(map, name, offset, wide),
+        10 => m_observe::<MappedOption<MappedStr>>(map, name, offset, wide),
+        11 => m_observe::<MappedOption<RawVectorMapper>>(map, name, offset, wide),
+        _ => m_observe::<MappedOption<IntVectorMapper>>(map, name, offset, wide),
+    }
+}
+
+// values a file is made of, written by the library's own Serialize implementations
+enum MVal {
+    Vec(Vec<u64>),
+    Pairs(Vec<(u64, u64)>),
+    Bytes(Vec<u8>),
+    Str(String),
+    Raw(RawVector),
+    Int(IntVector),
+    OptVec(Option<Vec<u64>>),
+    OptPairs(Option<Vec<(u64, u64)>>),
+    OptStr(Option<String>),
+    OptRaw(Option<RawVector>),
+    OptInt(Option<IntVector>),
+}
+
+impl MVal {
+    fn write(&self, w: &mut Vec<u8>) {
+        let r = match self {
+            MVal::Vec(v) => v.serialize(w),
+            MVal::Pairs(v) => v.serialize(w),
+            MVal::Bytes(v) => v.serialize(w),
+            MVal::Str(v) => v.serialize(w),
+            MVal::Raw(v) => v.serialize(w),
+            MVal::Int(v) => v.serialize(w),
+            MVal::OptVec(v) => v.serialize(w),
+            MVal::OptPairs(v) => v.serialize(w),
+            MVal::OptStr(v) => v.serialize(w),
+            MVal::OptRaw(v) => v.serialize(w),
+            MVal::OptInt(v) => v.serialize(w),
+        };
+        r.unwrap()
+    }
+    fn name(&self) -> String {
+        match self {
+            MVal::Vec(v) => format!("Vec<u64>({})", v.len()),
+            MVal::Pairs(v) => format!("Vec<(u64,u64)>({})", v.len()),
+            MVal::Bytes(v) => format!("Vec<u8>({})", v.len()),
+            MVal::Str(v) => format!("String({})", v.len()),
+            MVal::Raw(v) => format!("RawVector({})", v.len()),
+            MVal::Int(v) => format!("IntVector({},w{})", v.len(), v.width()),
+            MVal::OptVec(v) => format!("Option<Vec<u64>>({})", v.is_some()),
+            MVal::OptPairs(v) => format!("Option<Vec<(u64,u64)>>({})", v.is_some()),
+            MVal::OptStr(v) => format!("Option<String>({})", v.is_some()),
+            MVal::OptRaw(v) => format!("Option<RawVector>({})", v.is_some()),
+            MVal::OptInt(v) => format!("Option<IntVector>({})", v.is_some()),
+        }
+    }
+}
+
+fn m_raw(rng: &mut Rng, len: usize) -> RawVector {
+    let mut r = RawVector::new();
+    for _ in 0..len {
+        r.push_bit(rng.below(3) != 0);
+    }
+    r
+}
+fn m_int(width: usize, items: &[u64]) -> IntVector {
+    let mut v = IntVector::new(width).unwrap();
+    for x in items.iter() {
+        v.push(*x);
+    }
+    v
+}
+
+// element values that are huge when read as a length / bit length / width / option size
+fn huge(rng: &mut Rng, total: u64) -> u64 {
+    let m = !0u64;
+    let hs = [m, m - 1, m - 2, m - 3, m - 7, m - 8, m - 62, m - 63, m - 64, 1 << 63, (1 << 63) + 1, (1 << 63) - 1, 1 << 62, 1 << 61, (1 << 61) - 1, (1 << 61) + 1,
+        m - total, m - total + 1, m - total - 1, (m / 2) - total / 2 + 1, m / 8, m / 8 + 1];
+    *rng.pick(&hs)
+}
+fn m_word(rng: &mut Rng, total: u64) -> u64 {
+    match rng.below(10) {
+        0 | 1 | 2 => rng.below(7),
+        3 => total.saturating_sub(rng.below(4)),
+        4 => rng.below(8 * total + 2),
+        5 => rng.word(),
+        _ => huge(rng, total),
+    }
+}
+
+fn m_random_val(rng: &mut Rng, total: u64) -> MVal {
+    let n = rng.range(0, 6) as usize;
+    match rng.below(14) {
+        0 | 1 | 2 | 3 => MVal::Vec((0..n).map(|_| m_word(rng, total)).collect()),
+        4 | 5 => MVal::Pairs((0..n / 2 + 1).map(|_| (m_word(rng, total), m_word(rng, total))).collect()),
+        6 => MVal::Bytes((0..rng.range(0, 20)).map(|_| if rng.chance(1, 2) { 0xFF } else { rng.next() as u8 }).collect()),
+        7 => MVal::Str(["", "a", "h\u{e9}llo", "\u{10FFFF}\u{7FF}xyz", "eight ch", "nine char"][rng.below(6) as usize].to_string()),
+        8 => {
+            let l = [0usize, 1, 64, 65, 130][rng.below(5) as usize];
+            MVal::Raw(m_raw(rng, l))
+        }
+        9 => MVal::Int(m_int(64, &(0..n).map(|_| m_word(rng, total)).collect::<Vec<u64>>())),
+        10 => MVal::Int(m_int(rng.range(1, 63) as usize, &(0..n).map(|_| rng.below(2)).collect::<Vec<u64>>())),
+        11 => MVal::OptVec(if rng.chance(1, 3) { None } else { Some((0..n).map(|_| m_word(rng, total)).collect()) }),
+        12 => MVal::OptInt(if rng.chance(1, 3) { None } else { Some(m_int(64, &(0..n).map(|_| m_word(rng, total)).collect::<Vec<u64>>())) }),
+        _ => MVal::OptPairs(if rng.chance(1, 3) { None } else { Some((0..n / 2 + 1).map(|_| (m_word(rng, total), m_word(rng, total))).collect()) }),
+    }
+}
+
+fn mapped_files(rng: &mut Rng, thorough: bool) -> Vec<(String, Vec<MVal>)> {
+    let m = !0u64;
+    let mut fs: Vec<(String, Vec<MVal>)> = vec![
+        // user data that is huge when read as a length: the file of finding F12
+        ("huge items (F12)".to_string(), vec![MVal::Vec(vec![3, 2, m - 2, m - 2])]),
+        // a length that fits in words but not in pairs
+        ("pairs, wrong offset".to_string(), vec![MVal::Pairs(vec![(10, 11), (12, 13), (1, 99)])]),
+        ("words read as pairs".to_string(), vec![MVal::Vec(vec![5, 6, 7, 8])]),
+        // huge len and width elements in front of a valid raw vector (finding F14)
+        ("huge len/width (F14)".to_string(), vec![MVal::Vec(vec![m, m, 0, 1, 5])]),
+        ("huge len/width 2".to_string(), vec![MVal::Vec(vec![m - 3, m - 3, 0, 2, 9, 9]), MVal::Vec(vec![m - 62, m - 63, 64, 1, m])]),
+        ("powers".to_string(), vec![MVal::Vec(vec![1 << 63, 1 << 61, (1 << 61) - 1, (1 << 63) + 1, 1, m - 8, m - 7, 0])]),
+        ("huge pairs".to_string(), vec![MVal::Pairs(vec![(1 << 63, 1), (m - 2, m - 2), (1 << 61, 2), ((1 << 63) - 1, 3)])]),
+        ("bytes FF".to_string(), vec![MVal::Bytes(vec![0xFF; 24]), MVal::Bytes(vec![0xFF; 3])]),
+        ("strings and options".to_string(), vec![MVal::Str("h\u{e9}llo w\u{f6}rld, \u{fc}n\u{ef}code".to_string()), MVal::Bytes((1..=9).collect()),
+            MVal::OptStr(Some("abc".to_string())), MVal::OptVec(None), MVal::OptStr(None)]),
+        ("raw and int".to_string(), vec![MVal::Raw(m_raw(rng, 130)), MVal::Int(m_int(64, &[m - 2, 1 << 63, 3, m])),
+            MVal::OptInt(Some(m_int(7, &[1, 127, 0, 5, 99]))), MVal::OptRaw(None), MVal::OptRaw(Some(m_raw(rng, 64)))]),
+        ("empties".to_string(), vec![MVal::Int(m_int(13, &(0..40).map(|i| i * 199 % 8192).collect::<Vec<u64>>())), MVal::Raw(RawVector::new()),
+            MVal::Vec(Vec::new()), MVal::Pairs(Vec::new()), MVal::Bytes(Vec::new()), MVal::Str(String::new())]),
+        ("options of huge".to_string(), vec![MVal::OptVec(Some(vec![m - 2, 1 << 63, 2, 1])), MVal::OptPairs(Some(vec![(1, 2)])), MVal::OptInt(None), MVal::Vec(vec![1])]),
+    ];
+    for k in 0..(if thorough { 80 } else { 10 }) {
+        let n = rng.range(1, 4) as usize;
+        let total = 4 * n as u64 + rng.below(8);
+        let vals: Vec<MVal> = (0..n).map(|_| m_random_val(rng, total)).collect();
+        fs.push((format!("random {}", k), vals));
+    }
+    fs
+}
+
+fn m_elements(bytes: &[u8]) -> Vec<u64> {
+    bytes.chunks(8).map(|c| { let mut a = [0u8; 8]; a[..c.len()].copy_from_slice(c); u64::from_le_bytes(a) }).collect()
+}
+
+// runs in a forked child: maps the file and requests every view type at every offset
+fn mapped_batch(out: &mut Out, path: &std::path::Path, bytes: &[u8], desc: &str, starts: &[usize]) {
+    fs::write(path, bytes).unwrap();
+    let map = match MemoryMap::new(path, MappingMode::ReadOnly) {
+        Ok(m) => m,
+        Err(_) => {
+            out.stat("mapped.map_refused");
+            let _ = fs::remove_file(path);
+            return;
+        }
+    };
+    let file = m_elements(bytes);
+    let total = file.len();
+    let mut offsets: Vec<usize> = (0..total + 3).collect();
+    offsets.extend_from_slice(&[1usize << 63, MAX - 1, MAX]);
+    for (ty, (coq, name)) in MTYPES.iter().enumerate() {
+        let mut wide: Vec<(usize, Wide)> = Vec::new();
+        let mut terms: Vec<String> = Vec::new();
+        let mut js: Vec<String> = Vec::new();
+        let (mut outside, mut oob) = (false, false);
+        for off in offsets.iter() {
+            let o = m_observe_ty(&map, ty, *off, &mut wide);
+            out.stat(if *off >= total { "mapped.offset.beyond_end" } else if starts.contains(off) { "mapped.offset.structure_start" } else { "mapped.offset.inside_a_structure" });
+            if *off < total && file[*off] >= (1u64 << 61) {
+                out.stat("mapped.length_element.huge");
+            }
+            match &o {
+                MObs::Err(k) => {
+                    out.stat(match k { 1 => "mapped.new.err_eof", 2 => "mapped.new.err_invalid", _ => "mapped.new.err_other" });
+                    terms.push(format!("({}, MErr {})", nz(*off), k));
+                }
+                MObs::Panic(k) => {
+                    out.stat("mapped.new.panic");
+                    oob |= *k == 9;
+                    terms.push(format!("({}, MPanic {})", nz(*off), k));
+                    js.push(format!("{{\"offset\":{},\"new\":\"panic\",\"class\":{}}}", off, k));
+                }
+                MObs::Ok { mo, ml, claimed, inside, touch } => {
+                    out.stat("mapped.new.ok");
+                    out.stat_n("mapped.touches", touch.len() as u64);
+                    if !*inside {
+                        outside = true;
+                        out.stat("mapped.new.ok_outside_the_map");
+                    }
+                    let hit = touch.iter().any(|t| class_of(&t.2) == 9);
+                    oob |= hit;
+                    let tt: Vec<String> = touch.iter().map(|(a, i, r)| format!("({}, {}, {})", a, nz(*i), ires(r, |_| "tt".to_string()))).collect();
+                    terms.push(format!("({}, MOk {} {} {} {} [{}])", nz(*off), ires(mo, |x| nu(*x)), ires(ml, |x| nu(*x)), nu(*claimed), b(*inside), tt.join("; ")));
+                    js.push(format!("{{\"offset\":{},\"new\":\"ok\",\"claimed_len\":{},\"inside_map\":{},\"touch_oob\":{}}}", off, claimed, inside, hit));
+                }
+            }
+        }
+        out.case("mapped", format!("CMapped {} {} {} [{}]", b(DBG), nlist(&file), coq, terms.join("; ")),
+            format!("{{\"struct\":\"mapped views\",\"view\":{:?},\"file_of\":{:?},\"elements\":{:?},\"view_outside_map\":{},\"oob\":{},\"views\":[{}]}}",
+                name, desc, file, outside, oob, js.join(",")), true);
+        for (off, (len, width, gets)) in wide.iter() {
+            let hit = gets.iter().any(|g| class_of(&g.1) == 9);
+            out.stat(if hit { "mapped.wide_get.oob" } else { "mapped.wide_get.clean" });
+            let gt: Vec<String> = gets.iter().map(|(i, r)| format!("({}, {})", nz(*i), ires(r, |_| "tt".to_string()))).collect();
+            let gj: Vec<String> = gets.iter().map(|(i, r)| format!("{:?}", format!("get({})={}", i, class_of(r)))).collect();
+            out.case("mapped_get", format!("CMGet {} {} {} {} [{}]", b(DBG), nlist(&file), b(ty == 12), nz(*off), gt.join("; ")),
+                format!("{{\"probe\":\"IntVectorMapper::get, width element above 64\",\"file_of\":{:?},\"elements\":{:?},\"offset\":{},\"through_option\":{},\"len\":{},\"width\":{},\"oob\":{},\"gets\":[{}]}}",
+                    desc, file, off, ty == 12, len, width, hit, gj.join(",")), true);
+        }
+    }
+    drop(map);
+    let _ = fs::remove_file(path);
+}
+
 // ---------------------------------------------------------------- masks
 
 fn masks_batch(out: &mut Out) {
@@ -1089,6 +1596,15 @@ pub fn run(rng: &mut Rng, out: &mut Out, thorough: bool, variant: &str) {
             raw_batch(o, &mut r, &bits);
         });
     }
+    for len in [1usize, 63, 65, 130] {
+        let bits = gen_bits(rng, len, Style::Ones);
+        let seed = rng.next();
+        out.stat("struct.rawvector");
+        bt.run(out, K_RAW, &format!("RawVector(len={},all ones)", len), seed, |o| {
+            let mut r = Rng::new(seed);
+            raw_batch(o, &mut r, &bits);
+        });
+    }
     let mut ivs: Vec<(usize, usize)> = vec![(1, 0), (1, 70), (7, 1), (13, 40), (32, 9), (63, 5), (64, 0), (64, 3), (33, 64)];
     for _ in 0..(if thorough { 40 } else { 3 }) {
         ivs.push((rng.range(1, 64) as usize, rng.below(150) as usize));
@@ -1149,6 +1665,23 @@ pub fn run(rng: &mut Rng, out: &mut Out, thorough: bool, variant: &str) {
             let mut r = Rng::new(seed);
             wm_batch(o, &mut r, *len, *sigma, *pairs);
         });
+    }
+    // ---- memory-mapped views over files of library-serialized values: every view type at every offset
+    for (k, (desc, vals)) in mapped_files(rng, thorough).iter().enumerate() {
+        let mut bytes: Vec<u8> = Vec::new();
+        let mut starts: Vec<usize> = Vec::new();
+        for v in vals.iter() {
+            starts.push(bytes.len() / 8);
+            v.write(&mut bytes);
+        }
+        let names: Vec<String> = vals.iter().map(|v| v.name()).collect();
+        let label = format!("mapped file {} [{}]: {}", k, desc, names.join(" ++ "));
+        let path = bt.dir.join(format!("c08_map_{}_{}.bin", std::process::id(), k));
+        let seed = rng.next();
+        out.stat("struct.mapped_file");
+        out.stat_n("mapped.file_elements", (bytes.len() / 8) as u64);
+        bt.run(out, K_MAPPED, &label, seed, |o| mapped_batch(o, &path, &bytes, &label, &starts));
+        let _ = fs::remove_file(&path);
     }
     // ---- mask functions
     let seed = rng.next();
